@@ -9,13 +9,18 @@ ROOT = os.path.dirname(os.path.dirname(os.path.abspath(__file__)))
 TECH = "bounded symbolic execution of the real Python source (symx: AST lifting + z3), exhaustive over all paths within the bounds; every path and every counterexample replayed on the unlifted code"
 
 CLAIMED = {
-    "C01": ("which changes a commit records: exclusion and missing-file filters (kernels)",
+    "C01": ("which changes a commit records: selection / exclusion / missing-file filters and the commit() pipeline with a failure point",
             "The real filter_excluded over changes with SYMBOLIC old / new paths and symbolic excluded paths: a change is "
             "passed on, unchanged and in order, iff neither of its paths lies in an excluded path (component-wise "
             "containment). The real Commit._filter_iter_changes over every combination of versioned flags and kinds: "
             "versioned entries whose file is missing are committed as deletions (and listed for unversioning), changes "
-            "between two unversioned states are not committed, everything else passes unchanged. The tree comparison "
-            "itself, the commit builder, the recorded revision tree and the failure path (builder.abort) are outside.",
+            "between two unversioned states are not committed, everything else passes unchanged. The real Commit.commit() "
+            "over recording stand-ins with the form of the selection / exclusion arguments, a pending merge, "
+            "allow_pointless and the step at which an exception is raised SYMBOLIC: the builder records exactly the selected, "
+            "not excluded changes (None = all, [] = none), the steps run in order, and a commit that raises before its "
+            "revision is stored aborts the write group once and leaves tip, basis and locks untouched. The tree comparison "
+            "itself, the commit builder's inventory / text recording, the recorded revision tree and failures after "
+            "builder.commit are outside.",
             "osutils.is_inside_any (Rust) replaced by a python model validated against it before each run; reporter and "
             "tree are stubs"),
     "C04": ("ordering of the durable effects of commit / autopack (crash points between effects)",
